@@ -4,12 +4,17 @@ import JunoModel.C01.ModelState
 import JunoModel.C01.ModelLegacy
 import JunoModel.C01.ModelStore
 import JunoModel.C01.ModelLazy
+import JunoModel.C01.ModelVersion
+import JunoModel.C01.ModelStateL
+import JunoModel.C01.ModelChain
 /-!
 Line-protocol driver for the C01 models (`lake build c01drv`).
 
 Requests (one per line, answers one line each):
   new  <id> <height> <ped|pos>      fresh trie2 model in slot <id>            -> ok
   put  <id> <keyhex> <valhex>       Trie.Update(key, value)                    -> ok
+  poke <id> <keyhex> <valhex>       the caller overwrites the felt whose POINTER it passed to the last Update(key, ·):
+                                    the leaf changes in place, no flag / cached hash is touched   -> ok
   hash <id>                         Trie.Hash() (caches hashes)                -> <term>
   get  <id> <keyhex>                Trie.Get(key)                              -> <term>
   spec <height> <ped|pos> k:v ...   Spec.root of the given map (height <= 12)  -> <term>
@@ -26,6 +31,9 @@ Requests (one per line, answers one line each):
   bcommit <id>                      Trie.Commit(), write the node set, reopen       -> <rootterm> none | <rootterm> entry...
         entries sorted by (path length, path): D:<len>:<path>:<isLeaf> | L:<len>:<path>:<value term> |
         B:<len>:<path>:<hash term>:<left term>:<right term> | E:<len>:<path>:<hash term>:<child term>:<plen>:<p>
+  bdump <id>                        the whole node database of the trie (after the last bcommit), sorted by (length, path, leaf)
+                                    -> empty | <len>:<path>:<isLeaf>:L:<value term> | …:B:<left>:<right> | …:E:<child>:<plen>:<p> ...
+  zget <id> <keyhex>                Trie.Get on the restart model: resolves and keeps the nodes on the way -> <term>
   znew/zput/zhash/zreopen <id> ...  the restart model of ModelLazy.lean (unresolved nodes carry their subtree) -> ok | <term>
   snew <id> <purge 0|1>             fresh state model (purge = empty system contracts lose their leaf) -> ok
   sblock <id> <pre014 0|1> item...  State.Update + Commitment; items in application order:
@@ -36,6 +44,17 @@ Requests (one per line, answers one line each):
                                     fixed = variant with the proposed repair  -> ok | mismatch
   comm <ped|pos> <hex item>...      root of the temporary commitment trie (item i under key i, height 64) -> <term>
   sdiscard <id> <pre014> item...    the same update executed and DROPPED (state unchanged)  -> <term> | rejected
+  In sblock / sdiscard / tblock / cfin / cstore the version flag may be given as `v=<version string>`: the model then
+  parses the string itself (`Version.pre014?`); a commitment the code cannot compute (nil version) is answered `panic`.
+  ver v=<string>                    ParseBlockVersion + LessThan(0.14.0)                    -> pre | post | err
+  tnew <id> <purge>                 fresh state model on tries that are reopened from the node database -> ok
+  tblock <id> <restart 0|1> <pre014> item...   state.New + State.Update + Commitment (ModelStateL.lean) -> <term> | rejected
+  cnew <id> <fixed 0|1> <purge>     fresh chain (what the node stores per block, ModelChain.lean)        -> ok
+  cfin <id> <pre014> item...        Blockchain.Finalise of the next block (caller's OldRoot = stored root of the head)
+                                    -> <root term> <old term> <new term> | rejected
+  cstore <id> <pre014> <old: prev|cur|bad> <new: ok|bad> item...   Blockchain.Store of the next block; the claimed OldRoot is
+                                    the root stored for the head / the head state's commitment under THIS block's version /
+                                    a wrong value, the claimed NewRoot right or wrong -> <root> <old> <new> | rejected
 Terms are printed in prefix form: f<hex> | P(a,b) | S(a,b) | T(a,b,c) | A(t,<hex>).
 -/
 open Juno.Proto Juno.C01
@@ -63,6 +82,8 @@ structure St where
   legacy : List (Nat × Legacy.Trie) := []
   lazyT : List (Nat × Trie2S.T) := []
   lazyL : List (Nat × (Nat × HashKind × LNode)) := []
+  lstates : List (Nat × (Bool × StateL.StL)) := []
+  chains : List (Nat × (Bool × Bool × State.St × HTerm)) := []
 
 def pathStr (p : Path) : String := toString p.length ++ ":" ++ natToHex (pathNat p)
 
@@ -73,6 +94,14 @@ def setNodeStr (e : Path × Trie2S.SetNode) : String :=
   | .nonLeaf h (.bin l r) => "B:" ++ pathStr e.1 ++ ":" ++ termStr h ++ ":" ++ termStr l ++ ":" ++ termStr r
   | .nonLeaf h (.edge c p) => "E:" ++ pathStr e.1 ++ ":" ++ termStr h ++ ":" ++ termStr c ++ ":" ++ pathStr p
   | _ => "X:" ++ pathStr e.1
+
+/-- one entry of the model's node database: `<len>:<path>:<isLeaf>:L:<value>` | `…:B:<left>:<right>` | `…:E:<child>:<plen>:<p>` -/
+def diskEntryStr (e : (Path × Bool) × Trie2S.Blob) : String :=
+  let pre := pathStr e.1.1 ++ ":" ++ (if e.1.2 then "1" else "0") ++ ":"
+  match e.2 with
+  | .leaf v => pre ++ "L:" ++ termStr v
+  | .bin l r => pre ++ "B:" ++ termStr l ++ ":" ++ termStr r
+  | .edge c p => pre ++ "E:" ++ termStr c ++ ":" ++ pathStr p
 
 def sortSet (ns : Trie2S.NodeSet) : Trie2S.NodeSet :=
   (ns.toArray.qsort (fun a b => a.1.length < b.1.length || (a.1.length == b.1.length && pathNat a.1 < pathNat b.1))).toList
@@ -101,6 +130,29 @@ def addItem (d : State.Diff) (item : String) : Option State.Diff :=
     pure { d with storage := d.storage ++ [(natToPath 251 x, st)] }
   | _ => none
 
+/-- version flag of a block: `0` / `1`, or `v=<string>` parsed by the model; inner `none` = unparsable string -/
+def preOf? (tok : String) : Option (Option Bool) :=
+  if tok.startsWith "v=" then some (Version.pre014? (tok.drop 2).toString)
+  else match tok.toNat? with
+    | some n => some (some (n != 0))
+    | none => none
+
+/-- `Commitment(version)` when the version may be unparsable: the code needs the version only if the class trie is
+empty and the contract trie is not -/
+def commitmentStr (pre : Option Bool) (contractRoot classRoot : HTerm) : String :=
+  match pre with
+  | some b => termStr (State.stateCommitment b contractRoot classRoot)
+  | none =>
+    if classRoot = .felt 0 ∧ contractRoot = .felt 0 then termStr (.felt 0)
+    else if classRoot = .felt 0 then "panic"
+    else termStr (.pos3 (.felt State.stateVersion0) contractRoot classRoot)
+
+def stCommitmentStr (pre : Option Bool) (st : State.St) : String :=
+  commitmentStr pre (Trie2.hashRoot .pedersen st.ctrie).1 (Trie2.hashRoot .poseidon st.cltrie).1
+
+def parseDiff (items : List String) : Option State.Diff :=
+  items.foldlM addItem (⟨[], [], [], [], [], []⟩ : State.Diff)
+
 def St.getT2 (s : St) (id : Nat) : Option T2 := (s.t2.find? (·.1 == id)).map (·.2)
 def St.setT2 (s : St) (id : Nat) (t : T2) : St :=
   { s with t2 := (id, t) :: s.t2.filter (·.1 != id) }
@@ -123,6 +175,16 @@ def step (s : St) (line : String) : St × String :=
       | some t =>
         if key ≥ 2 ^ t.height then (s, "err:key-too-big") else
         (s.setT2 id { t with root := Trie2.update t.root (natToPath t.height key) (.felt val) }, "ok")
+      | none => (s, "bad-op")
+    | _, _, _ => (s, "bad-op")
+  | ["poke", id, key, val] =>
+    -- the caller overwrote the felt it had passed to Update(key, &felt): the leaf changes in place
+    match id.toNat?, hexToNat? key, hexToNat? val with
+    | some id, some key, some val =>
+      match s.getT2 id with
+      | some t =>
+        if key ≥ 2 ^ t.height then (s, "err:key-too-big") else
+        (s.setT2 id { t with root := Trie2.poke t.root (natToPath t.height key) (.felt val) }, "ok")
       | none => (s, "bad-op")
     | _, _, _ => (s, "bad-op")
   | ["hash", id] =>
@@ -235,6 +297,18 @@ def step (s : St) (line : String) : St × String :=
         ({ s with lazyT := (id, t') :: s.lazyT.filter (·.1 != id) }, termStr h ++ " " ++ body)
       | none => (s, "bad-op")
     | none => (s, "bad-op")
+  | ["bdump", id] =>
+    match id.toNat? with
+    | some id =>
+      match s.lazyT.find? (·.1 == id) with
+      | some (_, t) =>
+        let es := (t.disk.toArray.qsort (fun a b =>
+          a.1.1.length < b.1.1.length ||
+          (a.1.1.length == b.1.1.length && (pathNat a.1.1 < pathNat b.1.1 ||
+            (pathNat a.1.1 == pathNat b.1.1 && !a.1.2 && b.1.2))))).toList
+        (s, if es.isEmpty then "empty" else " ".intercalate (es.map diskEntryStr))
+      | none => (s, "bad-op")
+    | none => (s, "bad-op")
   | ["znew", id, h, k] =>
     match id.toNat?, h.toNat?, kindOf? k with
     | some id, some h, some k => ({ s with lazyL := (id, (h, k, .nil)) :: s.lazyL.filter (·.1 != id) }, "ok")
@@ -248,6 +322,17 @@ def step (s : St) (line : String) : St × String :=
         ({ s with lazyL := (id, (h, k, TrieL.update t (natToPath h key) (.felt val))) :: s.lazyL.filter (·.1 != id) }, "ok")
       | none => (s, "bad-op")
     | _, _, _ => (s, "bad-op")
+  | ["zget", id, key] =>
+    -- Trie.Get: the answer, and the tree with the nodes it resolved kept resolved
+    match id.toNat?, hexToNat? key with
+    | some id, some key =>
+      match s.lazyL.find? (·.1 == id) with
+      | some (_, (h, k, t)) =>
+        if key ≥ 2 ^ h then (s, "err:key-too-big") else
+        let r := TrieL.getR t (natToPath h key)
+        ({ s with lazyL := (id, (h, k, r.2.1)) :: s.lazyL.filter (·.1 != id) }, termStr r.1)
+      | none => (s, "bad-op")
+    | _, _ => (s, "bad-op")
   | ["zhash", id] =>
     match id.toNat? with
     | some id =>
@@ -270,17 +355,92 @@ def step (s : St) (line : String) : St × String :=
       ({ s with states := (id, (p != 0, State.St.empty)) :: s.states.filter (·.1 != id) }, "ok")
     | _, _ => (s, "bad-op")
   | "sblock" :: id :: pre :: items =>
-    match id.toNat?, pre.toNat? with
+    match id.toNat?, preOf? pre with
     | some id, some pre =>
       match s.states.find? (·.1 == id) with
       | some (_, (purge, st)) =>
-        match items.foldlM addItem (⟨[], [], [], [], [], []⟩ : State.Diff) with
+        match parseDiff items with
         | some d =>
           match State.update purge st d with
           | some st' =>
-            ({ s with states := (id, (purge, st')) :: s.states.filter (·.1 != id) },
-              termStr (State.commitment (pre != 0) st'))
+            ({ s with states := (id, (purge, st')) :: s.states.filter (·.1 != id) }, stCommitmentStr pre st')
           | none => (s, "rejected")
+        | none => (s, "bad-op")
+      | none => (s, "bad-op")
+    | _, _ => (s, "bad-op")
+  | ["ver", v] =>
+    if v.startsWith "v=" then
+      (s, match Version.pre014? (v.drop 2).toString with
+        | some true => "pre"
+        | some false => "post"
+        | none => "err")
+    else (s, "bad-op")
+  | ["tnew", id, purge] =>
+    match id.toNat?, purge.toNat? with
+    | some id, some p =>
+      ({ s with lstates := (id, (p != 0, StateL.StL.empty)) :: s.lstates.filter (·.1 != id) }, "ok")
+    | _, _ => (s, "bad-op")
+  | "tblock" :: id :: restart :: pre :: items =>
+    match id.toNat?, restart.toNat?, preOf? pre with
+    | some id, some restart, some pre =>
+      match s.lstates.find? (·.1 == id) with
+      | some (_, (purge, st)) =>
+        match parseDiff items with
+        | some d =>
+          match StateL.update purge (restart != 0) st d with
+          | some st' =>
+            ({ s with lstates := (id, (purge, st')) :: s.lstates.filter (·.1 != id) },
+              commitmentStr pre (TrieL.rootHash .pedersen st'.ctrie) (TrieL.rootHash .poseidon st'.cltrie))
+          | none => (s, "rejected")
+        | none => (s, "bad-op")
+      | none => (s, "bad-op")
+    | _, _, _ => (s, "bad-op")
+  | ["cnew", id, fixed, purge] =>
+    match id.toNat?, fixed.toNat?, purge.toNat? with
+    | some id, some fx, some p =>
+      ({ s with chains := (id, (fx != 0, p != 0, State.St.empty, .felt 0)) :: s.chains.filter (·.1 != id) }, "ok")
+    | _, _, _ => (s, "bad-op")
+  | "cfin" :: id :: pre :: items =>
+    match id.toNat?, preOf? pre with
+    | some id, some (some pre) =>
+      match s.chains.find? (·.1 == id) with
+      | some (_, (fixed, purge, st, head)) =>
+        match parseDiff items with
+        | some d =>
+          match Chain.finalise fixed purge pre (some head) st d with
+          | some (st', stored) =>
+            ({ s with chains := (id, (fixed, purge, st', stored.root)) :: s.chains.filter (·.1 != id) },
+              termStr stored.root ++ " " ++ termStr stored.old ++ " " ++ termStr stored.new)
+          | none => (s, "rejected")
+        | none => (s, "bad-op")
+      | none => (s, "bad-op")
+    | _, _ => (s, "bad-op")
+  | "cstore" :: id :: pre :: oldSel :: newSel :: items =>
+    match id.toNat?, preOf? pre with
+    | some id, some (some pre) =>
+      match s.chains.find? (·.1 == id) with
+      | some (_, (fixed, purge, st, head)) =>
+        match parseDiff items with
+        | some d =>
+          let old? : Option HTerm := match oldSel with
+            | "prev" => some head
+            | "cur" => some (State.commitment pre st)
+            | "bad" => some (.felt 0xdead)
+            | _ => none
+          -- the right new root is only known after the update; `bad` is a value no commitment equals
+          let new? : Option (Option HTerm) := match newSel with
+            | "ok" => some ((State.update purge st d).map (State.commitment pre))
+            | "bad" => some (some (.felt 0xdead))
+            | _ => none
+          match old?, new? with
+          | some old, some (some new) =>
+            match Chain.store fixed purge pre old new st d with
+            | some (st', stored) =>
+              ({ s with chains := (id, (fixed, purge, st', stored.root)) :: s.chains.filter (·.1 != id) },
+                termStr stored.root ++ " " ++ termStr stored.old ++ " " ++ termStr stored.new)
+            | none => (s, "rejected")
+          | some _, some none => (s, "rejected")      -- the diff itself is not accepted
+          | _, _ => (s, "bad-op")
         | none => (s, "bad-op")
       | none => (s, "bad-op")
     | _, _ => (s, "bad-op")
@@ -301,14 +461,14 @@ def step (s : St) (line : String) : St × String :=
     | _, _ => (s, "bad-op")
   | "sdiscard" :: id :: pre :: items =>
     -- an update that is executed and dropped: answer the root it computes, keep the state
-    match id.toNat?, pre.toNat? with
+    match id.toNat?, preOf? pre with
     | some id, some pre =>
       match s.states.find? (·.1 == id) with
       | some (_, (purge, st)) =>
-        match items.foldlM addItem (⟨[], [], [], [], [], []⟩ : State.Diff) with
+        match parseDiff items with
         | some d =>
           match State.update purge st d with
-          | some st' => (s, termStr (State.commitment (pre != 0) st'))
+          | some st' => (s, stCommitmentStr pre st')
           | none => (s, "rejected")
         | none => (s, "bad-op")
       | none => (s, "bad-op")
